@@ -240,7 +240,7 @@ pub fn run(r: &Report) {
     // ---- (1) well-formed item sequences
     {
         let sub = "item-sequences";
-        let n1 = if thorough { 5 } else { 4 };
+        let n1 = if thorough { 6 } else { 5 };
         r.space(sub, true, &format!("all single items <= {} nodes (12-leaf alphabet) in preferred heads and with every head-width assignment for <= 3 nodes; all ordered pairs of items <= 2 nodes; all 65536 half items except signalling NaNs; all well-formed simple values", n1), 1);
         let alpha = Alphabet::full();
         // text leaves must be valid UTF-8 here: tokenisation validates text
@@ -383,7 +383,7 @@ pub fn run(r: &Report) {
     // ---- (3) arbitrary bytes: termination count
     {
         let sub = "arbitrary-bytes";
-        let maxlen = if thorough { 3 } else { 2 };
+        let maxlen = 3;
         r.space(sub, true, &format!("all byte strings of length <= {} and the hostile heads: at most one item per input byte, at most one error and only as the last item, then None on two further calls", maxlen), 2);
         let hs = hostile_heads();
         let shards = 256usize;
